@@ -20,6 +20,7 @@ TIMEOUT = {"quick": 600, "thorough": 2400}
 SELF_SHARDED = True
 VARIANTS = ["fn", "fn_flat", "dp", "dp_flat"]
 KEY_BAND = "in-image-animal-dropped-by-strict-interior-filter"
+KEY_SUBPX = "subpixel-edge-weight-below-1-at-destination-end"
 
 
 def gen_case(ctx, i):
@@ -46,7 +47,7 @@ def gen_case(ctx, i):
     pts, places = [], []
     xlast, ylast = (W // s - 1) * s, (H // s - 1) * s
     for a in range(n_an):
-        place = str(r.choice(["inside", "inside", "straddle", "outside", "band", "oncell", "coincident"]))
+        place = str(r.choice(["inside", "inside", "straddle", "outside", "band", "oncell", "coincident", "subpixel"]))
         places.append(place)
         if place == "outside":
             side = int(r.integers(0, 4))
@@ -71,6 +72,14 @@ def gen_case(ctx, i):
             x = r.uniform(0.5, W - 1.5, n_nodes)
             y = r.uniform(0.5, H - 1.5, n_nodes)
         p = np.stack([x, y], -1)
+        if place == "subpixel" and W // s >= 4 and H // s >= 4:
+            # an edge shorter than one pixel with one endpoint exactly on a grid cell (so a cell lies on the segment)
+            j, k = edges[int(r.integers(0, len(edges)))]
+            if r.random() < 0.5:
+                j, k = k, j
+            p[j] = [float(s * r.integers(1, W // s - 2)), float(s * r.integers(1, H // s - 2))]
+            ang, L = r.uniform(0, 2 * np.pi), r.uniform(0.2, 0.95)
+            p[k] = p[j] + L * np.array([np.cos(ang), np.sin(ang)])
         if place == "coincident" and n_nodes >= 2:
             j, k = r.choice(n_nodes, 2, replace=False)
             p[k] = p[j]
@@ -101,6 +110,14 @@ def directed(ctx):
            "points": np.array([[[8.0, 0.0], [24.0, 0.0], [40.0, 0.0]], [[10.0, 10.0], [20.0, 20.0], [np.nan, 5.0]]]), "nan_class": "some", "places": ["band", "inside"]}
     yield {"i": -3, "variant": "dp_flat", "H": 32, "W": 32, "stride": 2, "sigma": 1.5, "n_nodes": 3, "edges": [[2, 0], [0, 1]],
            "points": np.array([[[4.0, 4.0], [20.0, 4.0], [4.0, 24.0]]]), "nan_class": "none", "places": ["oncell"]}
+    yield from directed_subpixel()
+
+
+def directed_subpixel():
+    # sub-pixel edge whose destination sits on a grid cell (known finding: projection clamp), and the reverse orientation (exact)
+    for e in ([[0, 1]], [[1, 0]]):
+        yield {"i": -4 if e == [[0, 1]] else -5, "variant": "fn", "H": 32, "W": 32, "stride": 1, "sigma": 0.5, "n_nodes": 2, "edges": e,
+               "points": np.array([[[10.58, 12.0], [10.0, 12.0]]]), "nan_class": "none", "places": ["subpixel"]}
 
 
 def cases(ctx):
@@ -229,8 +246,22 @@ def check(ctx, case):
                         else:
                             ctx.violation("weight-on-segment", f"weight {wgt[on].min():.4g} < 1 on a cell lying on the segment (edge {k}, animal {a})", small)
                         continue
-            elif dropped and in_img.any() and not in_open.any():
-                pass
+            elif not dropped:
+                # sub-pixel edge: a cell coinciding with an endpoint lies on the segment
+                at_src = np.hypot(GX - src[0], GY - src[1]) <= 1e-6
+                at_dst = np.hypot(GX - dst[0], GY - dst[1]) <= 1e-6
+                if at_src.any():
+                    ctx.count("subpixel_cells_on_source")
+                    if wgt[at_src].min() < 1 - 1e-3:
+                        ctx.violation("weight-on-segment", f"sub-pixel edge (length {L:.3f}): field at the cell on its source point has weight {wgt[at_src].min():.4g} along src->dst, expected 1 (edge {k}, animal {a})", small)
+                        continue
+                if at_dst.any():
+                    ctx.count("subpixel_cells_on_destination")
+                    w_clamp = float(np.exp(-0.5 * (L * (1 - L * L)) ** 4 / sigma ** 2))  # what the max(len^2, 1) projection clamp yields at the destination end (the weight is a Gaussian of the *squared* distance)
+                    if wgt[at_dst].min() < 1 - 1e-3:
+                        key = KEY_SUBPX if abs(wgt[at_dst].min() - w_clamp) <= 2e-3 else "weight-on-segment"
+                        ctx.violation(key, f"sub-pixel edge (length {L:.3f}, sigma {sigma:.3g}): weight {wgt[at_dst].min():.4g} < 1 at the cell on its destination point (edge {k}, animal {a})", small)
+                        continue
             # monotone: d1 + m < d2  =>  w1 >= w2 - 1e-5
             m = 1e-3 if L >= 1.0 else max(L, 1e-3)
             order = np.argsort(dist, axis=None)
